@@ -275,7 +275,7 @@ def rule_borrow(cx, tier, cfg_name="rc"):
     r.analysed = {"functions": n_fn, "functions_with_guards": n_guard_fns, "guard_call_pairs": n_pairs,
                   "panicking_borrow_sites": bi.n_sites, "cell_types": sorted(_short_T(t) for t in bi.types),
                   "configuration": cfg_name}
-    r.floor("live guard x call pairs", n_pairs, 100)
+    r.floor("live guard x call pairs", n_pairs, 75)
     return r
 
 
@@ -357,7 +357,7 @@ def rule_recursive_read(cx, tier):
                               f"a read guard of the same container (`{fn.local_name(g) or '_' + str(g)}`): with a writer "
                               f"queued in between, reader and writer wait for each other", fn.file, c.line))
     r.analysed = {"shared_guard_x_handle_method_pairs": n_pairs}
-    r.floor("live shared guard x handle method call pairs", n_pairs, 5)
+    r.floor("live shared guard x handle method call pairs", n_pairs, 3)
     return r
 
 
